@@ -81,6 +81,26 @@ func mine() bool {
 
 func skip() { caseNo++ }
 
+// lastCase remembers the case being executed so that a fatal fault (which no recover can
+// intercept) still identifies its input: it is written to the file named by VERIF_LASTCASE.
+var lastCaseFile *os.File
+
+func trace(fn, args string) {
+	if lastCaseFile == nil {
+		name := os.Getenv("VERIF_LASTCASE")
+		if name == "" {
+			return
+		}
+		f, err := os.Create(name)
+		if err != nil {
+			return
+		}
+		lastCaseFile = f
+	}
+	lastCaseFile.Truncate(0)
+	lastCaseFile.WriteAt([]byte(fn+"\t"+args+"\n"), 0)
+}
+
 func main() {
 	flag.Parse()
 	if flag.NArg() < 1 {
